@@ -239,6 +239,10 @@ func genClasses(r *RNG, n int, prefix string) []*GClass {
 					keep = append(keep, m)
 				}
 			}
+			if len(keep) < 2 {
+				// (never a class with `new` only: callers name its second method)
+				keep = append(keep, &GMethod{Name: "kept_m", Ret: []string{"Int"}})
+			}
 			c.Methods = keep
 		}
 	}
@@ -457,7 +461,7 @@ func callProgram(r *RNG, classes []*GClass) string {
 			}
 		}
 		// a union receiver with another class's instance
-		if ci > 0 {
+		if ci > 0 && len(c.Methods) > 1 {
 			fmt.Fprintf(&sb, "u%d = flag ? %s : o%d\n", ci, v, ci-1)
 			fmt.Fprintf(&sb, "dbtp u%d.%s\n", ci, c.Methods[1].Name)
 		}
